@@ -47,6 +47,7 @@ UNDEF = 2  # Variable state: 0=False, 1=True, 2=Undefined
 
 _VERIF = environ.get("SOLVOR_VERIF") == "1"
 _VERIF_TRACE: list | None = None  # verification harness sets this to a list before a call
+_VERIF_DECISIONS = False  # verification harness sets this to True to also record decisions and restarts
 
 
 def lit_var(lit: int) -> int:
@@ -491,6 +492,8 @@ def solve_sat(
                     return Result(None, 0, decisions, propagations, Status.MAX_ITER)
 
                 restarts += 1
+                if _VERIF_DECISIONS:
+                    _ev("restart")
                 luby_idx += 1
                 next_restart = luby_factor * luby(luby_idx)
                 conflicts_since_restart = 0
@@ -538,6 +541,8 @@ def solve_sat(
             conflict = propagate()
             continue
 
+        if _VERIF_DECISIONS:
+            _ev("decide", var)
         decisions += 1
         dec_level += 1
         trail_lim.append(len(trail))
